@@ -51,9 +51,8 @@ def synthesize(name: str, bases: tuple[type, ...], **kwargs: Any) -> type:
         ns.update(kwargs)
 
     newcls: type = types.new_class(name, bases, exec_body=build_body)
-    __registry[name] = newcls
-
-    return newcls
+    # NOTE: another thread may have registered the name since the look-up above
+    return __registry.setdefault(name, newcls)
 
 
 def registered_synthetics() -> dict[str, SynthNode]:
